@@ -4,7 +4,8 @@
     *validity predicate* `valid()` (docs/config.md + DESIGN §3 C14): strides are powers of two, backbone
     output_stride = min(head strides), every head stride < max_stride, stem in {None,2,4} (< max_stride),
     convs_per_block >= 2, ConvNeXt/Swin-T max_stride = 8 * stem_patch_stride.  Every valid point is built with
-    the real `Model(...)` and run on inputs (k1*max_stride, k2*max_stride) x batch.  Oracle (property text, plain
+    the real `Model(...)` and run on inputs (k1*max_stride, k2*max_stride) x batch (one instance per configuration,
+    inputs in a fixed order, so the grid is at the same time a set of call histories of differing sizes).  Oracle (property text, plain
     arithmetic): exactly one output per head, shape (batch, parts | 2*edges, H/stride, W/stride), which must
     also be the per-sample shape that generate_confmaps / generate_multiconfmaps / generate_pafs produce for
     that head on an image of the same size.  Any exception at construction or forward is a violation.
@@ -28,7 +29,8 @@ LEVEL = "model_checking"
 RULE = (
     "grid: every point of (family x max_stride x stem x filters x filters_rate x convs_per_block x up_interpolate x "
     "middle_block x head type x head stride(s)) that satisfies the validity predicate, x input size x batch; one "
-    "evaluation = one forward pass of a freshly copied real Model; non-trivial = the stride/channel bookkeeping is "
+    "evaluation = one forward pass of the real Model built for that configuration (all inputs of a configuration go through "
+    "one instance, in order; the case records the prior inputs and replay repeats them); non-trivial = the stride/channel bookkeeping is "
     "exercised beyond the default path (two heads at different strides, or fractional filters_rate, or a stem, or "
     "ConvNeXt/Swin head stride != stem stride).  histories: every call sequence up to the depth bound over the "
     "input alphabet on a fresh copy of each representative model (no pruning), one evaluation = one history, "
